@@ -44,7 +44,9 @@ HEADER = ("From Coq Require Import ZArith List String.\n"
 ERRS = [('Could not remap', 'ErrRemap'), ('Not all single-qubit', 'ErrSingleDim'), ('Not all multi-qubit', 'ErrMultiDim'),
         ('All pulses should be defined', 'ErrDt'), ('Qubit clash', 'ErrClash'), ('Number of qubits N smaller', 'ErrN'),
         ('Filter function should be cached but omega', 'ErrOmega'), ('Additional noise Hamiltonian given and', 'ErrCacheDiag'),
-        ('Expected additional noise operators', 'ErrAddDim'), ('Found duplicate noise operator', 'ErrAddDup')]
+        ('Expected additional noise operators', 'ErrAddDim'), ('Found duplicate noise operator', 'ErrAddDup'),
+        ('Identifier ', 'ErrKey'), ('Identifier mapping is not one-to-one', 'ErrDupMap'),
+        ('Identifiers of the extended pulse should be unique', 'ErrDupIds')]
 
 
 # ---------------------------------------------------------------- independent reference constructions
@@ -225,7 +227,7 @@ def run_extend(spec):
                 q = ps_mod.extend(mapping_arg, **kw)
                 exc = None
             except ValueError as e:
-                q, exc = None, next((k for m, k in ERRS if str(e).startswith(m)), 'Unknown:' + str(e)[:60])
+                q, exc = None, next((k for m, k in sorted(ERRS, key=lambda t: -len(t[0])) if str(e).startswith(m)), 'Unknown:' + str(e)[:60])
             except KeyError as e:
                 q, exc = None, 'ErrKey'
     return pulses, pre, descs, q, exc, rec
@@ -527,9 +529,18 @@ def invalid_specs(r):
     s['add'][0]['id'] = s['pulses'][0]['n'][0]['id'] + '_0'                      # duplicate identifier
     out.append(s)
     s = make_spec(r, [0, 1], 2)
-    s['pulses'][0]['mapping'] = {s['pulses'][0]['c'][0]['id']: 'zz'}             # incomplete mapping
-    if len(s['pulses'][0]['c']) + len(s['pulses'][0]['n']) > 1:
+    s['pulses'][0]['mapping'] = {'not-an-identifier': 'zz'}                        # incomplete mapping
+    out.append(s)
+    s = make_spec(r, [0, 1], 2)                                                  # mapping of one pulse not one-to-one
+    ids = [x['id'] for x in s['pulses'][1]['c'] + s['pulses'][1]['n']]
+    s['pulses'][1]['mapping'] = {i: ('same' if k < 2 else 'o%d' % k) for k, i in enumerate(
+        [x['id'] for x in s['pulses'][1]['n']] + [x['id'] for x in s['pulses'][1]['c']])}
+    if len(s['pulses'][1]['n']) > 1:
         out.append(s)
+    s = make_spec(r, [0, 1], 2)                                                  # two pulses mapped onto the same identifier
+    s['pulses'][0]['mapping'] = {x['id']: 'u%d' % k for k, x in enumerate(s['pulses'][0]['c'] + s['pulses'][0]['n'])}
+    s['pulses'][1]['mapping'] = {x['id']: ('u0' if k == 0 else 'w%d' % k) for k, x in enumerate(s['pulses'][1]['c'] + s['pulses'][1]['n'])}
+    out.append(s)
     return out
 
 
